@@ -7,7 +7,7 @@
    shapes, 0 < dt, 0 <= tol < dt/2. *)
 From Coq Require Import List ZArith Bool Arith Lia Reals Lra.
 From Flocq Require Import Core.Raux Core.Generic_fmt.
-From Inferno Require Import Base.Num Base.NumR Gen.Infra C01.Ring C01.RingProofs C02.Select C02.RoundTrip.
+From Inferno Require Import Base.Num Base.NumR Gen.Infra Gen.Interpolation Gen.Extrapolation C01.Ring C01.RingProofs C02.Select C02.RoundTrip.
 Import ListNotations.
 Ltac Zify.zify_post_hook ::= Z.div_mod_to_equations.
 Local Open Scope R_scope.
@@ -380,6 +380,17 @@ Qed.
 Lemma map_castU d (l : list R) : map (castU RN d) l = l.
 Proof. induction l as [|a l IH]; cbn [map]; [reflexivity|]. rewrite IH. reflexivity. Qed.
 
+Lemma if_castU (b : bool) d (l1 l2 : list R) : (if b then map (castU RN d) l1 else l2) = (if b then l1 else l2).
+Proof. destruct b; [apply map_castU|reflexivity]. Qed.
+
+Lemma nth_map_fst e (l : list (R * R)) : nth e (map fst l) 0 = fst (nth e l (0, 0)).
+Proof. exact (map_nth fst l (0, 0) e). Qed.
+Lemma nth_map_snd e (l : list (R * R)) : nth e (map snd l) 0 = snd (nth e l (0, 0)).
+Proof. exact (map_nth snd l (0, 0) e). Qed.
+
+Lemma nth_map_hd e (cols : list (list R)) : nth e (map (fun c => hd 0 c) cols) 0 = hd 0 (nth e cols []).
+Proof. exact (map_nth (fun c : list R => hd 0 c) cols [] e). Qed.
+
 Lemma rows_length (s : ringR) : wf s -> full s -> length (rows s) = N s.
 Proof. intros (_ & _ & Hl) Hf. unfold full, rows in *. destruct (st s); try contradiction. exact Hl. Qed.
 
@@ -397,6 +408,12 @@ Lemma wfS_intro (s : ringR) d sh : wf s -> st s = SFull d sh (rows s) -> (forall
 Proof.
   intros Hwf Est H. split; [exact Hwf|]. rewrite Est.
   apply rows_forall_at; [exact Hwf| |exact H]. unfold full. rewrite Est. exact I.
+Qed.
+
+Lemma shape_refl sh : shape_eqb sh sh = true.
+Proof.
+  unfold shape_eqb. rewrite Nat.eqb_refl. cbn [andb].
+  induction sh as [|a l IH]; cbn; [reflexivity|]. rewrite Nat.eqb_refl. exact IH.
 Qed.
 
 Lemma hit_cases (s : ringR) off j : wf s -> (2 <= N s)%nat ->
@@ -489,14 +506,15 @@ Proof.
                if (j mod Z.of_nat (N s) =? (off + k) mod Z.of_nat (N s))%Z then map snd ex
                else if (j mod Z.of_nat (N s) =? (off + k + 1) mod Z.of_nat (N s))%Z then map fst ex
                else at_ s j).
-    { intros j. unfold at_ at 1. unfold s', rows, set_st; cbn [st N ptr]. change (idx (mkRing (N s) (ptr s) _) j) with (idx s j).
+    { intros j. unfold at_ at 1. change (idx s' j) with (idx s j).
+      change (rows s') with (upd (upd (rows s) (idx s (off + k + 1)) (map fst ex)) (idx s (off + k)) (map snd ex)).
       pose proof (idx_ltR s (off + k) Hwf0). pose proof (idx_ltR s (off + k + 1) Hwf0).
       rewrite l_nth_upd by (rewrite l_upd_length; lia). rewrite l_nth_upd by lia.
       pose proof (idx_eq_iffR s j (off + k) Hwf0) as I1. pose proof (idx_eq_iffR s j (off + k + 1) Hwf0) as I2.
       destruct (Nat.eqb_spec (idx s j) (idx s (off + k))) as [E1|E1];
-        destruct (Z.eqb_spec (j mod Z.of_nat (N s)) ((off + k) mod Z.of_nat (N s))) as [Z1|Z1]; try tauto; [reflexivity|].
+        destruct (Z.eqb_spec (j mod Z.of_nat (N s)) ((off + k) mod Z.of_nat (N s))) as [Z1|Z1]; try tauto; try reflexivity.
       destruct (Nat.eqb_spec (idx s j) (idx s (off + k + 1))) as [E2|E2];
-        destruct (Z.eqb_spec (j mod Z.of_nat (N s)) ((off + k + 1) mod Z.of_nat (N s))) as [Z2|Z2]; try tauto; reflexivity. }
+        destruct (Z.eqb_spec (j mod Z.of_nat (N s)) ((off + k + 1) mod Z.of_nat (N s))) as [Z2|Z2]; try tauto; try reflexivity. }
     assert (Hwf' : wf s').
     { unfold s', wf, set_st; cbn [st N ptr]. rewrite !l_upd_length. auto. }
     assert (Est' : st s' = SFull d sh (rows s')) by reflexivity.
@@ -507,11 +525,11 @@ Proof.
     assert (Hrl : range_len r = 2%nat).
     { unfold range_len, r; cbn [rcols]. destruct ex as [|x ex']; [congruence|reflexivity]. }
     destruct (writerange_scalar_spec (castU RN) promU eqbU 0 s r (off + k + 1) true false Hwf0 Hf) as (d0 & sh0 & Est0 & Hw).
-    { rewrite Hrl. lia. }
-    { rewrite Hrl. unfold r; cbn [rcols]. apply Forall_forall. intros c Hc. apply in_map_iff in Hc. destruct Hc as (pn & <- & _). reflexivity. }
+    { rw Hrl. lia. }
+    { rw Hrl. unfold r; cbn [rcols]. apply Forall_forall. intros c Hc. apply in_map_iff in Hc. destruct Hc as (pn & <- & _). reflexivity. }
     rn_simpl. rewrite Est in Est0. injection Est0 as <- <-.
-    destruct (Hw Hsh) as (s' & d' & Hw' & Hwf' & HN' & Hp' & Est' & Hd' & Hat). clear Hw.
-    exists s'. split; [exact Hw'|]. destruct d'.
+    destruct (Hw (shape_refl sh)) as (s' & d' & Hw' & Hwf' & HN' & Hp' & Est' & Hd' & Hat). clear Hw.
+    exists s'. split; [exact Hw'|]. assert (Ed : d' = d) by (destruct d, d'; reflexivity). rewrite Ed in Est'. clear Hd'.
     assert (Hat2 : forall j, at_ s' j =
                if (j mod Z.of_nat (N s) =? (off + k) mod Z.of_nat (N s))%Z then map snd ex
                else if (j mod Z.of_nat (N s) =? (off + k + 1) mod Z.of_nat (N s))%Z then map fst ex
@@ -531,10 +549,317 @@ Proof.
           + rewrite (proj2 H0 Z2). cbn [Nat.ltb Nat.leb]. exact C0.
           + destruct (Nat.ltb_spec (hit s (off + k + 1) j) 2) as [Hlt|]; [|reflexivity].
             exfalso. destruct (hit s (off + k + 1) j) as [|[|h]] eqn:Eh; [apply Z2; tauto|apply Z1; tauto|lia]. }
-      destruct (true || _)%bool at 1.
-      - destruct (hit s (off + k + 1) j <? 2)%nat eqn:El; rewrite El in Hval; rewrite <- Hval; [apply map_castU|reflexivity].
-      - rewrite map_castU. exact Hval. }
+      rewrite if_castU, map_castU.
+      match goal with |- (if ?b then _ else _) = _ => destruct b end; exact Hval. }
     split; [apply Hfin; auto|]. auto.
+Qed.
+
+
+(* insert rejects exactly the times outside [-tol, dt*(N-1)+tol] *)
+Theorem insert_scalar_range (s : ringR) (o : obsR) off t extrap inplace d sh :
+  wfS s -> st s = SFull d sh (rows s) -> shape_eqb (oshape o) sh = true -> length (oel o) = nel sh -> (0 < nel sh)%nat ->
+  (insert_scalar RN s o dt tol off t extrap inplace = Err EValue <-> (t < - tol \/ dt * IZR (Z.of_nat (N s) - 1) + tol < t)).
+Proof.
+  intros Hwf Est Hsh Hlen Hnel. rewrite <- out_of_range_iff. split.
+  - intros E. destruct (out_of_range RN (N s) dt tol t) eqn:Eo; [reflexivity|]. exfalso.
+    apply out_of_range_false in Eo.
+    destruct (grid_or_between t) as [(k & Hk)|(k & Hb)].
+    + destruct (insert_scalar_on_grid s o off t k extrap inplace d sh Hwf Est Hsh Hlen Eo Hk) as (s' & E' & _). congruence.
+    + destruct (insert_scalar_off_grid s o off t k extrap inplace d sh Hwf Est Hsh Hlen Hnel Eo Hb) as (s' & E' & _). congruence.
+  - intros E. unfold insert_scalar. rn_simpl. rewrite Est, Hsh. cbn [negb]. rw E. reflexivity.
+Qed.
+Theorem insert_scalar_uninit (s : ringR) (o : obsR) off t extrap inplace : ~ full s ->
+  insert_scalar RN s o dt tol off t extrap inplace = Err ERuntime.
+Proof. unfold full, insert_scalar. rn_simpl. destruct (st s); intros H; try reflexivity. exfalso; apply H; exact I. Qed.
+
+(* two well-formed records with the same size, pointer, type, shape and the same observation at every
+   number of steps back are the same record *)
+Lemma ring_ext (s1 s2 : ringR) d sh : wf s1 -> wf s2 -> N s1 = N s2 -> ptr s1 = ptr s2 ->
+  st s1 = SFull d sh (rows s1) -> st s2 = SFull d sh (rows s2) -> (forall j, at_ s1 j = at_ s2 j) -> s1 = s2.
+Proof.
+  intros Hwf1 Hwf2 HN Hp E1 E2 Hat.
+  assert (Hf1 : full s1) by (unfold full; rewrite E1; exact I). assert (Hf2 : full s2) by (unfold full; rewrite E2; exact I).
+  pose proof (rows_length s1 Hwf1 Hf1) as L1. pose proof (rows_length s2 Hwf2 Hf2) as L2.
+  assert (Hrows : rows s1 = rows s2).
+  { apply nth_ext with (d := []) (d' := []); [lia|]. intros i Hi.
+    specialize (Hat (Z.of_nat (ptr s1) - Z.of_nat i)%Z). unfold at_, idx, unwind, _unwind_ptr in Hat.
+    rewrite <- Hp, <- HN in Hat.
+    replace (Z.of_nat (ptr s1) - (Z.of_nat (ptr s1) - Z.of_nat i))%Z with (Z.of_nat i) in Hat by lia.
+    rewrite Z.mod_small in Hat by lia. rewrite Nat2Z.id in Hat. exact Hat. }
+  destruct s1 as [n1 p1 st1], s2 as [n2 p2 st2]. cbn [N ptr st] in *. subst n2 p2.
+  rewrite E1, E2. unfold rows in Hrows. cbn [st] in Hrows. rewrite E1, E2 in Hrows. unfold rows; cbn [st]. rewrite E1, E2, Hrows.
+  reflexivity.
+Qed.
+
+(* ------------------------------------------------------------------ insert, tensor time *)
+Lemma scatter2_length (rws : list (list R)) w : length (scatter2 RN rws w) = length rws.
+Proof. unfold scatter2. rewrite map_length, seq_length. reflexivity. Qed.
+Lemma nth_scatter2_row (rws : list (list R)) w i : (i < length rws)%nat ->
+  nth i (scatter2 RN rws w) [] =
+  map (fun e => let '((pi, pv), (ni, nv)) := w e in
+                if (i =? ni)%nat then nv else if (i =? pi)%nat then pv else nth e (nth i rws []) 0)
+      (seq 0 (length (nth i rws []))).
+Proof. intros Hi. unfold scatter2. rewrite (l_nth_map_seq []) by exact Hi. reflexivity. Qed.
+Lemma nth_scatter2 (rws : list (list R)) w i e : (i < length rws)%nat -> (e < length (nth i rws []))%nat ->
+  nth e (nth i (scatter2 RN rws w) []) 0 =
+  let '((pi, pv), (ni, nv)) := w e in
+  if (i =? ni)%nat then nv else if (i =? pi)%nat then pv else nth e (nth i rws []) 0.
+Proof. intros Hi He. rewrite nth_scatter2_row by exact Hi. rewrite (l_nth_map_seq 0) by exact He. reflexivity. Qed.
+
+Lemma ins_elem_on_grid (s : ringR) off extrap e x t k : Rabs (IZR k * dt - t) <= tol ->
+  ins_elem RN s (rows s) dt tol off extrap e x t = ((idx s (off + k), x), (idx s (off + k), x)).
+Proof.
+  intros Hk. unfold ins_elem. rw (snapped_grid t k Hk).
+  destruct (ceil_floor_int off k) as (E1 & E2). rw E1. rw E2. rewrite Z.eqb_refl. reflexivity.
+Qed.
+Lemma ins_elem_off_grid (s : ringR) off extrap e x t k : between k t ->
+  let ex := extrap x (IZR (k + 1) * dt - t) (nth e (at_ s (off + k + 1)) 0) (nth e (at_ s (off + k)) 0) dt in
+  ins_elem RN s (rows s) dt tol off extrap e x t = ((idx s (off + k + 1), fst ex), (idx s (off + k), snd ex)).
+Proof.
+  intros Hb ex. unfold ins_elem. rw (snapped_between t k Hb).
+  destruct (ceil_off_between t k off Hb) as (E1 & E2). rw E1. rw E2. rw (sample_at_between t k Hb).
+  replace (off + k + 1 =? off + k)%Z with false by (symmetry; apply Z.eqb_neq; lia). reflexivity.
+Qed.
+
+(* every element is written independently: on the grid its slot off+k receives the observation's
+   element; between two grid points its two bracketing slots receive the extrapolated pair; no other
+   (slot, element) changes.  In-place and out-of-place alike. *)
+Theorem insert_tensor_spec (s : ringR) (o : obsR) off tsh times extrap inplace d sh :
+  wfS s -> st s = SFull d sh (rows s) -> shape_eqb (oshape o) sh = true -> shape_eqb tsh sh = true ->
+  length (oel o) = nel sh -> length times = nel sh -> Forall (in_range (N s)) times ->
+  exists s', insert_tensor RN s o dt tol off tsh times extrap inplace = Ok s' OUnit /\
+    wfS s' /\ N s' = N s /\ ptr s' = ptr s /\ st s' = SFull d sh (rows s') /\
+    forall e, (e < nel sh)%nat ->
+      let t := nth e times 0 in
+      let x := nth e (oel o) 0 in
+      (forall k, Rabs (IZR k * dt - t) <= tol -> forall j,
+         nth e (at_ s' j) 0 =
+         if (j mod Z.of_nat (N s) =? (off + k) mod Z.of_nat (N s))%Z then x else nth e (at_ s j) 0) /\
+      (forall k, between k t -> forall j,
+         let ex := extrap x (IZR (k + 1) * dt - t) (nth e (at_ s (off + k + 1)) 0) (nth e (at_ s (off + k)) 0) dt in
+         nth e (at_ s' j) 0 =
+         if (j mod Z.of_nat (N s) =? (off + k) mod Z.of_nat (N s))%Z then snd ex
+         else if (j mod Z.of_nat (N s) =? (off + k + 1) mod Z.of_nat (N s))%Z then fst ex
+         else nth e (at_ s j) 0).
+Proof.
+  intros Hwf Est Hsh Htsh Hlen Htl Hr. assert (Hf : full s) by (unfold full; rewrite Est; exact I).
+  pose proof (proj1 Hwf) as Hwf0. pose proof Hwf0 as (Hn & Hp & Hl0). rewrite Est in Hl0.
+  set (w := fun e => ins_elem RN s (rows s) dt tol off extrap e (nth e (oel o) 0) (nth e times 0)).
+  set (s' := set_st s (SFull d sh (scatter2 RN (rows s) w))).
+  assert (Hrun : insert_tensor RN s o dt tol off tsh times extrap inplace = Ok s' OUnit).
+  { unfold insert_tensor. rn_simpl. rewrite Est, Hsh, Htsh. cbn [negb]. rw (existsb_in_range _ _ Hr).
+    destruct inplace; reflexivity. }
+  assert (Hwf' : wf s').
+  { unfold s', wf, set_st; cbn [st N ptr]. rewrite scatter2_length. auto. }
+  assert (Est' : st s' = SFull d sh (rows s')) by reflexivity.
+  assert (Hrowlen : forall i, (i < N s)%nat -> length (nth i (rows s) []) = nel sh).
+  { intros i Hi. destruct Hwf as (_ & Hs). rewrite Est in Hs. apply Forall_nth_len; [exact Hs|lia]. }
+  assert (Hatl : forall j, length (at_ s' j) = nel sh).
+  { intros j. unfold at_. change (idx s' j) with (idx s j). change (rows s') with (scatter2 RN (rows s) w).
+    pose proof (idx_ltR s j Hwf0). rewrite nth_scatter2_row by lia. rewrite map_length, seq_length. apply Hrowlen. lia. }
+  assert (Hat : forall j e, (e < nel sh)%nat -> nth e (at_ s' j) 0 =
+            let '((pi, pv), (ni, nv)) := w e in
+            if (idx s j =? ni)%nat then nv else if (idx s j =? pi)%nat then pv else nth e (at_ s j) 0).
+  { intros j e He. unfold at_. change (idx s' j) with (idx s j). change (rows s') with (scatter2 RN (rows s) w).
+    pose proof (idx_ltR s j Hwf0). apply nth_scatter2; [lia|]. rewrite Hrowlen by lia. exact He. }
+  exists s'. split; [exact Hrun|]. split; [apply (wfS_intro s' d sh Hwf' Est' Hatl)|].
+  split; [reflexivity|]. split; [reflexivity|]. split; [exact Est'|].
+  intros e He t x. split.
+  - intros k Hk j. rw (Hat j e He). unfold w. fold t. fold x. rewrite (ins_elem_on_grid s off extrap e x t k Hk).
+    pose proof (idx_eq_iffR s j (off + k) Hwf0) as I1.
+    destruct (Nat.eqb_spec (idx s j) (idx s (off + k))) as [E1|E1];
+      destruct (Z.eqb_spec (j mod Z.of_nat (N s)) ((off + k) mod Z.of_nat (N s))) as [Z1|Z1]; try tauto; reflexivity.
+  - intros k Hb j ex. rw (Hat j e He). unfold w. fold t. fold x. rewrite (ins_elem_off_grid s off extrap e x t k Hb). fold ex.
+    pose proof (idx_eq_iffR s j (off + k) Hwf0) as I1. pose proof (idx_eq_iffR s j (off + k + 1) Hwf0) as I2.
+    destruct (Nat.eqb_spec (idx s j) (idx s (off + k))) as [E1|E1];
+      destruct (Z.eqb_spec (j mod Z.of_nat (N s)) ((off + k) mod Z.of_nat (N s))) as [Z1|Z1]; try tauto; try reflexivity.
+    destruct (Nat.eqb_spec (idx s j) (idx s (off + k + 1))) as [E2|E2];
+      destruct (Z.eqb_spec (j mod Z.of_nat (N s)) ((off + k + 1) mod Z.of_nat (N s))) as [Z2|Z2]; try tauto; try reflexivity.
+Qed.
+
+Theorem insert_tensor_range (s : ringR) (o : obsR) off tsh times extrap inplace d sh :
+  st s = SFull d sh (rows s) -> shape_eqb (oshape o) sh = true -> shape_eqb tsh sh = true ->
+  (insert_tensor RN s o dt tol off tsh times extrap inplace = Err EValue <->
+   exists t, In t times /\ (t < - tol \/ dt * IZR (Z.of_nat (N s) - 1) + tol < t)).
+Proof.
+  intros Est Hsh Htsh. unfold insert_tensor. rn_simpl. rewrite Est, Hsh, Htsh. cbn [negb].
+  match goal with |- context [if ?b then Err EValue else _] => destruct b eqn:E end.
+  - split; [intros _|reflexivity]. apply existsb_exists in E. destruct E as (t & Hin & Ht).
+    exists t. split; [exact Hin|]. apply out_of_range_iff; exact Ht.
+  - split; [destruct inplace; discriminate|].
+    intros (t & Hin & Ht). apply out_of_range_iff in Ht.
+    assert (X : existsb (out_of_range RN (N s) dt tol) times = true) by (apply existsb_exists; eauto). rn_simpl. congruence.
+Qed.
+
+
+(* ------------------------------------------------------------------ the insert paths agree *)
+(* in-place and out-of-place scalar-time insert produce the same record *)
+Theorem insert_scalar_inplace_agree (s : ringR) (o : obsR) off t extrap d sh :
+  wfS s -> st s = SFull d sh (rows s) -> shape_eqb (oshape o) sh = true -> length (oel o) = nel sh -> (0 < nel sh)%nat ->
+  in_range (N s) t ->
+  insert_scalar RN s o dt tol off t extrap true = insert_scalar RN s o dt tol off t extrap false.
+Proof.
+  intros Hwf Est Hsh Hlen Hnel Hr.
+  destruct (grid_or_between t) as [(k & Hk)|(k & Hb)].
+  - destruct (insert_scalar_on_grid s o off t k extrap true d sh Hwf Est Hsh Hlen Hr Hk) as (s1 & E1 & W1 & N1 & P1 & S1 & A1).
+    destruct (insert_scalar_on_grid s o off t k extrap false d sh Hwf Est Hsh Hlen Hr Hk) as (s2 & E2 & W2 & N2 & P2 & S2 & A2).
+    rn_simpl. rewrite E1, E2. f_equal. apply (ring_ext s1 s2 d sh (proj1 W1) (proj1 W2)); [rewrite N1, N2; reflexivity|rewrite P1, P2; reflexivity|exact S1|exact S2|].
+    intros j. rewrite A1, A2. reflexivity.
+  - destruct (insert_scalar_off_grid s o off t k extrap true d sh Hwf Est Hsh Hlen Hnel Hr Hb) as (s1 & E1 & W1 & N1 & P1 & S1 & A1).
+    destruct (insert_scalar_off_grid s o off t k extrap false d sh Hwf Est Hsh Hlen Hnel Hr Hb) as (s2 & E2 & W2 & N2 & P2 & S2 & A2).
+    rn_simpl. rewrite E1, E2. f_equal. apply (ring_ext s1 s2 d sh (proj1 W1) (proj1 W2)); [rewrite N1, N2; reflexivity|rewrite P1, P2; reflexivity|exact S1|exact S2|].
+    intros j. rewrite A1, A2. reflexivity.
+Qed.
+
+(* a tensor of equal times inserts what the scalar time inserts *)
+Theorem insert_tensor_scalar_agree (s : ringR) (o : obsR) off t times extrap ip1 ip2 d sh :
+  wfS s -> st s = SFull d sh (rows s) -> shape_eqb (oshape o) sh = true -> length (oel o) = nel sh -> (0 < nel sh)%nat ->
+  in_range (N s) t -> times = repeat t (nel sh) ->
+  insert_tensor RN s o dt tol off sh times extrap ip1 = insert_scalar RN s o dt tol off t extrap ip2.
+Proof.
+  intros Hwf Est Hsh Hlen Hnel Hr Ht.
+  assert (Htl : length times = nel sh) by (rewrite Ht; apply repeat_length).
+  assert (Hra : Forall (in_range (N s)) times).
+  { rewrite Ht. apply Forall_forall. intros x Hx. apply repeat_spec in Hx. subst x. exact Hr. }
+  assert (Hnt : forall e, (e < nel sh)%nat -> nth e times 0 = t).
+  { intros e He. rewrite Ht. rewrite (nth_indep _ 0 t) by (rewrite repeat_length; lia). apply nth_repeat. }
+  destruct (insert_tensor_spec s o off sh times extrap ip1 d sh Hwf Est Hsh (shape_refl sh) Hlen Htl Hra)
+    as (s1 & E1 & W1 & N1 & P1 & S1 & A1).
+  pose proof (proj1 Hwf) as Hwf0.
+  destruct (grid_or_between t) as [(k & Hk)|(k & Hb)].
+  - destruct (insert_scalar_on_grid s o off t k extrap ip2 d sh Hwf Est Hsh Hlen Hr Hk) as (s2 & E2 & W2 & N2 & P2 & S2 & A2).
+    rn_simpl. rewrite E1, E2. f_equal. apply (ring_ext s1 s2 d sh (proj1 W1) (proj1 W2)); [rewrite N1, N2; reflexivity|rewrite P1, P2; reflexivity|exact S1|exact S2|].
+    intros j. apply nth_ext with (d := 0) (d' := 0).
+    + rewrite (at_length s1 d sh j W1 S1), (at_length s2 d sh j W2 S2). reflexivity.
+    + intros e He. rewrite (at_length s1 d sh j W1 S1) in He.
+      destruct (A1 e He) as (G & _). rewrite (Hnt e He) in G. rewrite (G k Hk j), A2.
+      destruct (_ =? _)%Z; reflexivity.
+  - destruct (insert_scalar_off_grid s o off t k extrap ip2 d sh Hwf Est Hsh Hlen Hnel Hr Hb) as (s2 & E2 & W2 & N2 & P2 & S2 & A2).
+    rn_simpl. rewrite E1, E2. f_equal. apply (ring_ext s1 s2 d sh (proj1 W1) (proj1 W2)); [rewrite N1, N2; reflexivity|rewrite P1, P2; reflexivity|exact S1|exact S2|].
+    pose proof (at_length s d sh (off + k + 1) Hwf Est) as Hlp. pose proof (at_length s d sh (off + k) Hwf Est) as Hln.
+    intros j. apply nth_ext with (d := 0) (d' := 0).
+    + rewrite (at_length s1 d sh j W1 S1), (at_length s2 d sh j W2 S2). reflexivity.
+    + intros e He. rewrite (at_length s1 d sh j W1 S1) in He.
+      destruct (A1 e He) as (_ & G). rewrite (Hnt e He) in G. rewrite (G k Hb j), A2.
+      set (ex := zipw _ (oel o) _).
+      assert (Hex : nth e ex (0, 0) = extrap (nth e (oel o) 0) (IZR (k + 1) * dt - t)
+                                         (nth e (at_ s (off + k + 1)) 0) (nth e (at_ s (off + k)) 0) dt).
+      { unfold ex. rewrite (nth_zipw _ _ _ 0 (0, 0) (0, 0)) by (rewrite ?combine_length; lia).
+        rewrite combine_nth by lia. reflexivity. }
+      destruct (_ =? _)%Z.
+      * rewrite nth_map_snd, Hex. reflexivity.
+      * destruct (_ =? _)%Z; [|reflexivity].
+        rewrite nth_map_fst, Hex. reflexivity.
+Qed.
+
+(* ------------------------------------------------------------------ insert followed by select *)
+(* with a matching extrapolation / interpolation pair (C02/RoundTrip.v), selecting at the time just
+   inserted (same offset, same tolerance) returns the inserted observation *)
+Theorem insert_select_roundtrip_scalar (s : ringR) (o : obsR) off t interp extrap inplace d sh :
+  wfS s -> st s = SFull d sh (rows s) -> shape_eqb (oshape o) sh = true -> length (oel o) = nel sh -> (0 < nel sh)%nat ->
+  in_range (N s) t -> matching dt interp extrap ->
+  exists s', insert_scalar RN s o dt tol off t extrap inplace = Ok s' OUnit /\
+             select_scalar RN s' dt tol off t interp = Ok s' (OObs d sh (oel o)).
+Proof.
+  intros Hwf Est Hsh Hlen Hnel Hr Hm.
+  destruct (grid_or_between t) as [(k & Hk)|(k & Hb)].
+  - destruct (insert_scalar_on_grid s o off t k extrap inplace d sh Hwf Est Hsh Hlen Hr Hk) as (s' & E' & W' & N' & P' & S' & A').
+    exists s'. split; [exact E'|].
+    assert (Hf' : full s') by (unfold full; rewrite S'; exact I).
+    assert (Hr' : in_range (N s') t) by (rn_simpl; rewrite N'; exact Hr).
+    destruct (select_scalar_on_grid s' off t k interp (proj1 W') Hf' Hr' Hk) as (d' & sh' & S'' & ->).
+    rn_simpl. rewrite S' in S''. injection S'' as <- <-. rewrite A', Z.eqb_refl. reflexivity.
+  - destruct (insert_scalar_off_grid s o off t k extrap inplace d sh Hwf Est Hsh Hlen Hnel Hr Hb) as (s' & E' & W' & N' & P' & S' & A').
+    exists s'. split; [exact E'|].
+    assert (Hf' : full s') by (unfold full; rewrite S'; exact I).
+    assert (Hr' : in_range (N s') t) by (rn_simpl; rewrite N'; exact Hr).
+    destruct (select_scalar_off_grid s' off t k interp (proj1 W') Hf' Hr' Hb) as (d' & sh' & S'' & ->).
+    rn_simpl. rewrite S' in S''. injection S'' as <- <-. do 2 f_equal.
+    destruct (between_in_range (N s) t k Hr Hb) as (Hk0 & Hk1).
+    assert (Hneq : ((off + k) mod Z.of_nat (N s) <> (off + k + 1) mod Z.of_nat (N s))%Z) by (apply mod_succ_neq; lia).
+    rewrite !A'. rewrite Z.eqb_refl.
+    replace ((off + k + 1) mod Z.of_nat (N s) =? (off + k) mod Z.of_nat (N s))%Z with false
+      by (symmetry; apply Z.eqb_neq; congruence).
+    rewrite Z.eqb_refl.
+    pose proof (at_length s d sh (off + k + 1) Hwf Est) as Hlp. pose proof (at_length s d sh (off + k) Hwf Est) as Hln.
+    set (sa := IZR (k + 1) * dt - t). set (ex := zipw _ (oel o) _).
+    assert (Hexl : length ex = nel sh) by (unfold ex; rewrite zipw_length, combine_length; lia).
+    apply nth_ext with (d := 0) (d' := 0).
+    + rewrite zipw_length, !map_length. lia.
+    + intros e He. rewrite zipw_length, !map_length, Hexl in He.
+      rewrite (nth_zipw _ _ _ 0 0 0) by (rewrite ?map_length; lia).
+      rewrite nth_map_fst, nth_map_snd.
+      unfold ex. rewrite (nth_zipw _ _ _ 0 (0, 0) (0, 0)) by (rewrite ?combine_length; lia).
+      apply Hm. apply (sample_at_between_range t k Hb).
+Qed.
+
+Theorem insert_select_roundtrip_tensor (s : ringR) (o : obsR) off times interp extrap inplace d sh :
+  wfS s -> st s = SFull d sh (rows s) -> shape_eqb (oshape o) sh = true ->
+  length (oel o) = nel sh -> length times = nel sh -> Forall (in_range (N s)) times -> matching dt interp extrap ->
+  exists s', insert_tensor RN s o dt tol off sh times extrap inplace = Ok s' OUnit /\
+             select_tensor RN s' dt tol off (length sh) (map (fun t => [t]) times) interp = Ok s' (OObs d sh (oel o)).
+Proof.
+  intros Hwf Est Hsh Hlen Htl Hr Hm.
+  destruct (insert_tensor_spec s o off sh times extrap inplace d sh Hwf Est Hsh (shape_refl sh) Hlen Htl Hr)
+    as (s' & E' & W' & N' & P' & S' & A').
+  exists s'. split; [exact E'|].
+  assert (Hr' : Forall (in_range (N s')) (concat (map (fun t => [t]) times))).
+  { rewrite N'. replace (concat (map (fun t => [t]) times)) with times; [exact Hr|].
+    clear. induction times as [|a l IH]; cbn; [reflexivity|]. rewrite <- IH. reflexivity. }
+  destruct (select_tensor_spec s' off (length sh) (map (fun t => [t]) times) interp d sh W' S' (or_introl eq_refl) Hr')
+    as (cols & -> & Hcl & Hc).
+  rewrite Nat.eqb_refl. rn_simpl. do 2 f_equal.
+  apply nth_ext with (d := 0) (d' := 0); [rewrite map_length; lia|].
+  intros e He. rewrite map_length, Hcl in He.
+  rewrite nth_map_hd.
+  assert (Hte : nth e (map (fun t => [t]) times) [] = [nth e times 0]).
+  { rewrite (nth_indep _ [] ((fun t : R => [t]) 0)) by (rewrite map_length; lia). apply (map_nth (fun t : R => [t])). }
+  specialize (Hc e 0%nat He). rewrite Hte in Hc. specialize (Hc ltac:(cbn; lia)). cbn zeta in Hc. cbn [nth length] in Hc.
+  destruct Hc as (Hl1 & Hg & Hb).
+  assert (Hhd : hd 0 (nth e cols []) = nth 0 (nth e cols []) 0).
+  { destruct (nth e cols []); reflexivity. }
+  rewrite Hhd. destruct (A' e He) as (Ag & Ab). cbn zeta in Ag, Ab.
+  destruct (grid_or_between (nth e times 0)) as [(k & Hk)|(k & Hbt)].
+  - rewrite (Hg k Hk), (Ag k Hk). rewrite Z.eqb_refl. reflexivity.
+  - assert (Hre : in_range (N s) (nth e times 0)).
+    { rewrite Forall_forall in Hr. apply Hr. apply nth_In. lia. }
+    destruct (between_in_range (N s) _ k Hre Hbt) as (Hk0 & Hk1).
+    assert (Hneq : ((off + k) mod Z.of_nat (N s) <> (off + k + 1) mod Z.of_nat (N s))%Z) by (apply mod_succ_neq; lia).
+    rewrite (Hb k Hbt), !(Ab k Hbt). rewrite Z.eqb_refl.
+    replace ((off + k + 1) mod Z.of_nat (N s) =? (off + k) mod Z.of_nat (N s))%Z with false
+      by (symmetry; apply Z.eqb_neq; congruence).
+    rewrite Z.eqb_refl. apply Hm. apply (sample_at_between_range _ k Hbt).
+Qed.
+
+
+(* every extrapolation / interpolation pair shipped by the library as matching satisfies the round-trip
+   law (proved in C02/RoundTrip.v about the generated kernels), so the two round-trip theorems above
+   apply to each of them *)
+Theorem shipped_pairs_matching (tc rc : R) (adjust : option (R -> R)) :
+  matching dt (interp_previous RN) (extrap_previous RN) /\
+  matching dt (interp_next RN) (extrap_next RN) /\
+  matching dt (interp_nearest RN) (extrap_nearest RN) /\
+  matching dt (interp_previous RN) (extrap_neighbors RN) /\
+  matching dt (interp_next RN) (extrap_neighbors RN) /\
+  matching dt (interp_nearest RN) (extrap_neighbors RN) /\
+  matching dt (interp_linear RN) (extrap_neighbors RN) /\
+  matching dt (interp_linear RN) (fun x sa p n st => extrap_linear_forward RN x sa p n st adjust) /\
+  matching dt (interp_linear RN) (fun x sa p n st => extrap_linear_backward RN x sa p n st adjust) /\
+  matching dt (fun p n sa st => interp_expdecay RN p n sa st tc) (fun x sa p n st => extrap_expdecay RN x sa p n st tc) /\
+  matching dt (fun p n sa st => interp_expratedecay RN p n sa st rc) (fun x sa p n st => extrap_expratedecay RN x sa p n st rc).
+Proof.
+  repeat match goal with |- _ /\ _ => split end.
+  - apply rt_previous_previous.
+  - apply rt_next_next.
+  - apply rt_nearest_nearest; exact Hdt.
+  - apply rt_previous_neighbors.
+  - apply rt_next_neighbors.
+  - apply rt_nearest_neighbors.
+  - apply rt_linear_neighbors; exact Hdt.
+  - apply rt_linear_forward; exact Hdt.
+  - apply rt_linear_backward; exact Hdt.
+  - apply rt_expdecay.
+  - apply rt_expratedecay.
 Qed.
 
 End Time.
